@@ -210,10 +210,17 @@ def to_script(hist):
 def features(hist):
     """what a model behaviour exercises (used to deal rare scenarios to every configuration)"""
     f, prev, top, moved = set(), "a1", 0, False
+    left = set()       # addresses that were validated (became the peer address through a check) and were left again
     for h in hist["steps"]:
         a, r = h["act"], h["rec"]
+        if a["op"] == "deliver" and a.get("acc") and a["src"] in left and a["src"] != prev:
+            f.add("return")       # an accepted record from an address validated EARLIER on the connection
         if h["raddr"] != prev:
             f.add("moved")
+            if moved:
+                f.add("moved-twice")
+            if prev != "a1" or moved:
+                left.add(prev)
             moved = True
         prev = h["raddr"]
         for e in h["emit"]:
